@@ -259,6 +259,7 @@ func hasKey(v verdict, k string) bool {
 }
 
 var shrunkPerKey = map[string]int{}
+var reportedPerKey = map[string]int{}
 
 func report(c *core.Ctx, stream string, idx int, p *Program, v verdict) {
 	switch {
@@ -299,10 +300,16 @@ func report(c *core.Ctx, stream string, idx int, p *Program, v verdict) {
 			shrunkPerKey[key]++
 			mp, mv = shrink(cloneProgram(p), v, key)
 		}
-		detail := map[string]interface{}{
-			"minimal_source": mv.src, "where": mv.d.where, "expected": mv.d.expected, "observed": mv.d.observed,
-			"probes": probeSources(mp), "original_source": clip(v.src, 3000), "matched_on_trace_prefix_only": v.partial,
+		detail := map[string]interface{}{"where": mv.d.where, "expected": clip(mv.d.expected, 400), "observed": clip(mv.d.observed, 400),
+			"matched_on_trace_prefix_only": v.partial}
+		if reportedPerKey[key] < 10 {
+			// full sources only for the first cases of a key (every case can be
+			// re-generated from its stream and index)
+			detail["minimal_source"] = mv.src
+			detail["probes"] = probeSources(mp)
+			detail["original_source"] = clip(v.src, 3000)
 		}
+		reportedPerKey[key]++
 		c.Violation(key, fmt.Sprintf("%s differs between the reference model and the interpreter: expected %s, observed %s",
 			mv.d.where, clip(mv.d.expected, 200), clip(mv.d.observed, 200)), stream, idx, detail)
 	}
